@@ -264,6 +264,12 @@ def gen(rng, tier):
                     # through the dependency sub-command itself (analysis/dep: `deps -p dir`) in a fresh process, the imports
                     # written as Java sources into the tree; its printed table is read back
                     sh[-1]["cli"] = True
+                    if rng.random() < 0.5:
+                        # half of them with the importing class among the TEST sources (src/test/java/p/BTest.java): what only
+                        # tests import is imported
+                        sh[-1]["testSources"] = True
+                        sh[-1]["clzs"] = [{"NodeName": "A", "Package": "p", "Imports": [{"Source": "java.util.Map"}]},
+                                          {"NodeName": "B", "Package": "p", "Imports": [{"Source": i} for i in imports]}]
         # any Gradle script must be survived: the declared dependencies cannot be extracted from a crash
         for i in range(per // 2):
             sh.append({"op": "gradlesoup", "text": soup(rng) + "\n"})
